@@ -327,8 +327,12 @@ def work(job):
                     # or popped name are not hard-asserted)
                     carrying = {cc.norm(b) for b in list(top.values()) + list(nest.values()) + list(st.popped_named.values())}
                     impl_bg = [u for u in unnamed if cc.norm(u) not in carrying]
-                if not full and impl_bg is not None and (rec.get("replay_ok") or block is None) and \
-                        any(not cc.equivalent_to_some(logic, idecls, u, impl_bg) for u in unnamed):
+                missing = [u for u in unnamed if not cc.equivalent_to_some(logic, idecls, u, impl_bg)] if (not full and impl_bg is not None) else []
+                # every unnamed assertion the implementation left out of its background must be one whose term carries a live
+                # name (top-level or on a subterm): only that is the known defect
+                carriers = list(top.values()) + list(nest.values())
+                explained = bool(missing) and all(cc.equivalent_to_some(logic, decls, u, carriers) for u in missing)
+                if not full and impl_bg is not None and (rec.get("replay_ok") or block is None) and explained:
                     # (replay_ok: the traced background is exactly the current assertions for which contains() is false;
                     #  some unnamed assertion of the script is not in it)
                     # the implementation's background misses unnamed assertions whose term carries a name: is the core
